@@ -101,7 +101,8 @@ def gen_cases(tier, seed):
     nreal = 64 if tier == "quick" else 2500
     for _ in range(nreal):
         cases.append({"kind": "stats_real", "rseed": rnd.randrange(2 ** 32),
-                      "route": rnd.choice(["pyramid", "pyramid", "convert2", "sharded"])})
+                      "route": rnd.choice(["pyramid", "pyramid", "convert2", "sharded",
+                                            "slices"])})
     return cases
 
 
@@ -314,10 +315,41 @@ def run_real(case):
         nibabel.save(nibabel.Nifti1Image(arr, np.diag([1., 1., rnd.choice([1., 2.]), 1.])), fn)
         d1 = os.path.join(top, "ds")
         del _WRITES[:]
-        volume_to_precomputed_pyramid.volume_to_precomputed_pyramid(
-            fn, d1, options={"flat": rnd.random() < 0.5, "gzip": rnd.random() < 0.5})
-        with open(os.path.join(d1, "info")) as f:
-            info = json.load(f)
+        if case["route"] == "slices":
+            # a stack of 2-D slices in any of the 48 orientations, converted into a scale
+            # with non-cubic chunks (the slice axis is any of the three output axes)
+            import pathlib
+
+            import PIL.Image
+            from harness.checks.c15 import AX, CODES
+            from neuroglancer_scripts.scripts import slices_to_precomputed
+            shape = [rnd.randint(3, 40) for _ in range(3)]
+            cs = [rnd.choice([2, 4, 8, 16]) for _ in range(3)]
+            code = rnd.choice(CODES)
+            dt = "uint8"
+            info = {"type": "image", "data_type": dt, "num_channels": 1,
+                    "scales": [{"key": "full", "size": shape, "chunk_sizes": [cs],
+                                "encoding": "raw", "resolution": [1, 1, 1],
+                                "voxel_offset": [0, 0, 0]}]}
+            os.makedirs(d1)
+            with open(os.path.join(d1, "info"), "w") as f:
+                json.dump(info, f)
+            ncol, nrow, nsl = (shape[AX[letter][0]] for letter in code)
+            sd = os.path.join(top, "slices")
+            os.makedirs(sd)
+            g = np.random.default_rng(case["rseed"])
+            for i in range(nsl):
+                PIL.Image.fromarray(g.integers(0, 200, (nrow, ncol)).astype("uint8")).save(
+                    os.path.join(sd, f"s{i:04d}.png"))
+            obs["slice_stacks_with_noncubic_chunks"] = int(len(set(cs)) > 1)
+            slices_to_precomputed.convert_slices_in_directory(
+                [pathlib.Path(sd)], d1, code,
+                options={"flat": rnd.random() < 0.5, "gzip": rnd.random() < 0.5})
+        else:
+            volume_to_precomputed_pyramid.volume_to_precomputed_pyramid(
+                fn, d1, options={"flat": rnd.random() < 0.5, "gzip": rnd.random() < 0.5})
+            with open(os.path.join(d1, "info")) as f:
+                info = json.load(f)
         dataset = d1
         if case["route"] in ("convert2", "sharded"):
             # source written through the I/O layer with the grids convert-chunks will walk
@@ -440,7 +472,8 @@ def gates(obs, tier):
         "counts_beyond_2_60": obs.get("beyond_2_60", 0) > 100,
         "counts_held_in_numpy_integers": obs.get("numpy_integer_counts", 0) > 1000,
         "huge_infos": obs.get("huge_infos", 0) > 5,
-        "real_datasets_all_routes": len(obs.get("routes", {})) == 3,
+        "real_datasets_all_routes": len(obs.get("routes", {})) == 4,
+        "slice_stacks_with_noncubic_chunks": obs.get("slice_stacks_with_noncubic_chunks", 0) > 2,
         "tracer_and_census_agree_nonzero": obs.get("chunks_counted_by_tracer", 0) > 50
         and obs.get("chunks_counted_on_disk", 0) == obs.get("chunks_counted_by_tracer", 0),
     }
